@@ -305,7 +305,7 @@ class Contract:
                  raises=None, pure=True, inline=False, witnesses=None, props=(), self_rec=None,
                  nothrow=True, cut_asserts=None, path_split=False, lemmas_used=(), flags=()):
         self.target = target
-        self.params = list(params)          # [(name, Sort)] ; may be callable(config)->list
+        self.params = params if callable(params) else list(params)   # [(name, Sort)] or callable(config)->list
         self.returns = returns              # Sort or callable(ctx)->Sort
         self.requires = requires
         self.ensures = ensures
@@ -324,6 +324,11 @@ class Contract:
         self.lemmas_used = tuple(lemmas_used)
         self.flags = set(flags)
 
+    def param_list(self, config=None):
+        if callable(self.params):
+            return self.params(_AnyCfg(config or {}))
+        return self.params
+
     @property
     def path(self):
         return self.target.split('::')[0]
@@ -335,6 +340,13 @@ class Contract:
     @property
     def simple_name(self):
         return self.qualname.split('.')[-1]
+
+
+class _AnyCfg(dict):
+    """configuration dict that answers 1 for keys it does not have (parameter NAMES do not depend on it)"""
+
+    def __missing__(self, k):
+        return 1
 
 
 def labelled(x, default='clause'):
@@ -520,7 +532,7 @@ class Lemma:
     (use(lemma, **bindings)) or of itself with a smaller measure (induction hypothesis)."""
 
     def __init__(self, name, vars, requires=None, ensures=None, proof=None, decreases=None,
-                 props=(), note='', cases=None):
+                 props=(), note='', cases=None, int_mode='math', fuel=1, sat_check=True, tactic=None):
         self.name = name
         self.vars = vars
         self.requires = requires
@@ -530,6 +542,10 @@ class Lemma:
         self.props = tuple(props)
         self.note = note
         self.cases = cases
+        self.int_mode = int_mode
+        self.fuel = fuel
+        self.sat_check = sat_check
+        self.tactic = tactic
 
     def make_ns(self, prefix=''):
         ns = {}
